@@ -236,6 +236,15 @@ func loadProgram(repo, verifDir string) (*Program, error) {
 	if err != nil {
 		return nil, err
 	}
+	// struct sorts the prelude theories mention
+	for _, tp := range P.allTypesPkgs {
+		if tp.Path() == "time" {
+			if o := tp.Scope().Lookup("Time"); o != nil {
+				P.ss.sortOf(o.Type())
+			}
+		}
+	}
+	P.prelude.structDecls = P.ss.decls()
 	return P, nil
 }
 
@@ -317,6 +326,7 @@ type preludeFile struct {
 }
 
 type Prelude struct {
+	structDecls string
 	files map[string]*preludeFile
 	order []string
 	funs  map[string]funSig
@@ -377,6 +387,11 @@ func (p *Prelude) textFor(vc *VC) string {
 			b.WriteString("; ---- prelude " + n + "\n")
 			b.WriteString(p.files[n].text)
 			b.WriteString("\n")
+			if n == "core" {
+				// sorts generated from Go struct types come right after the core sorts
+				b.WriteString("; ---- struct sorts\n")
+				b.WriteString(vc.ss().decls())
+			}
 		}
 	}
 	return b.String()
@@ -409,6 +424,9 @@ func (p *Prelude) inconsistent(scratch string) string {
 				if need[m] {
 					b.WriteString(p.files[m].text)
 					b.WriteString("\n")
+					if m == "core" {
+						b.WriteString(p.structDecls)
+					}
 				}
 			}
 			b.WriteString("(check-sat)\n")
